@@ -79,7 +79,7 @@ def candS (ev : Event) (r : S.SRule) : Bool :=
 
 /-- aggregation of related lists of matching candidates -/
 theorem aggregate_rel (x : Ext) (ev : Event) : ∀ {ms : List S.SRule} {cs : List CompiledRule},
-    Rel2 (RuleRelFull x) ms cs → (∀ r ∈ ms, candS ev r = true) →
+    Rel2 (RuleRelFull x ev) ms cs → (∀ r ∈ ms, candS ev r = true) →
     ((C07.dets cs).map (·.severity)).sum = ((ms.filter (fun r => r.rtype == .detection)).map (fun r => S.cap r.severity)).sum ∧
     (∀ n, (∃ r ∈ C07.dets cs, r.name = n) ↔ n ∈ (ms.filter (fun r => r.rtype == .detection)).map (·.name)) ∧
     (∀ t, (∃ r ∈ C07.dets cs, t ∈ r.tags) ↔ t ∈ (ms.filter (fun r => r.rtype == .detection)).flatMap (·.tags)) ∧
@@ -128,7 +128,7 @@ theorem aggregate_rel (x : Ext) (ev : Event) : ∀ {ms : List S.SRule} {cs : Lis
 
 section scan
 variable (x : Ext) (ev : Event) (hev : EventWf ev) (rules : List S.SRule) (e : Engine) (hw : WfEngine e)
-  (hrel : Rel2 (RuleRelFull x) rules e.rules)
+  (hrel : Rel2 (RuleRelFull x ev) rules e.rules)
 
 def okS (r : S.SRule) : Bool := (S.verdicts x ev rules).lookup r.name == Option.some (S.Res.ok true)
 
@@ -210,7 +210,7 @@ theorem result_refines :
   have hpM : M.Perm M' := by rw [← hM, ← hM']; exact hperm.filterMap _
   have hJS : ∀ j ∈ JS x ev rules, j < rules.length := by
     intro j hj; exact List.mem_range.mp (List.mem_filter.mp hj).1
-  have hR : Rel2 (RuleRelFull x) MS M' := by rw [← hMS, ← hM']; exact Rel2.select hrel _ hJS
+  have hR : Rel2 (RuleRelFull x ev) MS M' := by rw [← hMS, ← hM']; exact Rel2.select hrel _ hJS
   have hcand : ∀ r ∈ MS, candS ev r = true := by
     intro r hr
     rw [← hMS] at hr
@@ -295,7 +295,7 @@ theorem failing_iff :
     (∃ i ∈ candidates e ev.source ev.id, ∃ y, (y = i ∨ y ∈ Dfs.dfsDepSearch (absEng e) i) ∧ verdict x ev e y = .err) ↔
     (S.scan x ev rules).failing ≠ [] := by
   have hlen := Rel2.length_eq hrel
-  have hrel' := Rel2.imp (fun _ _ (h : RuleRelFull x _ _) => h.toRuleRel) hrel
+  have hrel' := Rel2.imp (fun _ _ (h : RuleRelFull x ev _ _) => h.toRuleRel) hrel
   simp only [S.scan]
   constructor
   · rintro ⟨i, hi, y, hy, hv⟩
@@ -311,7 +311,7 @@ theorem failing_iff :
       rw [List.mem_filter, List.mem_eraseDups, List.mem_flatMap]
       refine ⟨⟨rules[y], hmemc, by simp⟩, ?_⟩
       rw [hr.name]; exact (bad_iff x ev hev rules e hw hrel y _ hc).mpr hv
-    · obtain ⟨l, hl, hch⟩ := closures_spec x rules e hw hrel i _ hc
+    · obtain ⟨l, hl, hch⟩ := closures_spec x ev rules e hw hrel i _ hc
       have hyl := dfs_members_lt hw.toWfCore i y hy
       have hcy : e.rules[y]? = some e.rules[y] := by simp [hyl]
       apply List.ne_nil_of_mem (a := e.rules[y].name)
@@ -336,7 +336,7 @@ theorem failing_iff :
     · refine ⟨i, Or.inl rfl, ?_⟩
       rw [hrr.name] at hbad
       exact (bad_iff x ev hev rules e hw hrel i _ hc).mp hbad
-    · obtain ⟨l, hl, hch⟩ := closures_spec x rules e hw hrel i _ hc
+    · obtain ⟨l, hl, hch⟩ := closures_spec x ev rules e hw hrel i _ hc
       rw [hrr.name, hl] at hn
       obtain ⟨y, hy, q, hq, hqn⟩ := (hch n).mp hn
       refine ⟨y, Or.inr hy, ?_⟩
